@@ -1,3 +1,4 @@
+\* 3 threads on one aggregate, 2 operations each
 CONSTANTS
   t1 = t1
   t2 = t2
